@@ -29,11 +29,12 @@ META = {
             "after the last task end, WorkerId stable, final count, DEADLOCK/LIVELOCK watchdog). "
             "ORACLE on the implementation through mjSpec (the failing-input search): specs built from mjgen trees plus several "
             "meshes given as vertex/face arrays (first one large, others small, so completion order differs from index order), "
-            "builtin meshes, procedural textures + materials, a height field, delayed actuators, a muscle rig whose length "
+            "builtin meshes, procedural textures (every type x builtin x mark, random-dot marks frequent and repeated) + materials, a height field, delayed actuators, a muscle rig whose length "
             "ranges are computed through the pool (second use of the pool; mixed motor/muscle actuator lists), optionally "
             "length ranges for all actuators: mj_saveModel bytes of  compile twice / compile of an mj_copySpec copy and of a "
             "copy of the copy / mj_copyModel / load(save) / usethread 0 and 1 (repeated, real threads) / mj_recompile of the "
-            "unchanged spec  must all be identical; mj_recompile must keep time, qpos, qvel, act, ctrl, mocap (class "
+            "unchanged spec  must all be identical, and so must the first compile in a fresh process, after three other "
+            "specs were compiled in the process, and inside the batch run (no hidden state carried between compiles); mj_recompile must keep time, qpos, qvel, act, ctrl, mocap (class "
             "saved-state-lost, always alarms) and also after an edit that appends a body. KNOWN FINDING C33-F1: the other "
             "mjSTATE_INTEGRATION components (history, qacc_warmstart, qfrc_applied, xfrc_applied, eq_active, userdata) are reset "
             "by mj_recompile (class unsaved-integration-state-reset; fixed corpus in both tiers). "
@@ -372,6 +373,27 @@ def run(ctx):
     cres = run_compile(ctx, cexe, ccases) if ccases else []
     if len(cres) < len(ccases):
         ctx.broken.append(("correspondence", "driver c33_compile produced %d of %d results" % (len(cres), len(ccases)), ""))
+    # the compiled model is a function of the spec alone, not of what the process (or thread) compiled before: the hash of
+    # the first compile in a fresh process, after three other specs were compiled, and in the batch run must agree
+    def first_hash(ls):
+        h = [l.split()[1] for l in ls if l.startswith("HASH ")]
+        return h[0] if h else ("REJECTED" if any(l.startswith("END REJ") for l in ls) else None)
+    nhist = 0
+    if cexe is not None and ccases:
+        hist = _run_compile_batch(ctx, cexe, [dict(c, reps=-4) for c in ccases if not (c["flags"] & 33)], 300)
+        hist_idx = [i for i, c in enumerate(ccases) if not (c["flags"] & 33)]
+        for k, i in enumerate(hist_idx):
+            if k >= len(hist) or cres[i] is None or cres[i][0] in ("TIMEOUT", "SKIPPED") or cres[i][0].startswith("CRASH"):
+                continue
+            c = ccases[i]
+            fresh = _run_compile_batch(ctx, cexe, [dict(c, reps=-1)], 120)[0]
+            hs = {"fresh process": first_hash(fresh[1]), "after 3 other compiles": first_hash(hist[k][1]), "batch run": first_hash(cres[i][1])}
+            nhist += 1
+            if len(set(hs.values())) > 1 and None not in hs.values():
+                ctx.violation("impl_violation", c, expected="the same model bytes whatever was compiled before in the process",
+                              observed={"fnv1a64 of mj_saveModel bytes of the first compile": hs}, theorem="C33 oracle (compile is a function of the spec)",
+                              signature={"site": "mj_compile", "what": "model-depends-on-process-history"},
+                              note="replay: c33_compile lines with reps=-1 (fresh) and reps=-4 (three other specs compiled first)")
     ncmp, nstate, nocompile, threaded, known = 0, 0, 0, 0, 0
     nrej = 0
     textnotes = {"count": 0, "first_line_differs": 0, "trailing_warning_lines_differ": 0,
@@ -460,6 +482,7 @@ def run(ctx):
     ctx.cov["support"]["oracle_violations_pool"] = nviol
     ctx.cov["support"]["known_finding_C33_F1_cases"] = known
     ctx.cov["compile_cases"]["rejection_comparisons"] = nrej
+    ctx.cov["compile_cases"]["process_history_comparisons"] = nhist
     ctx.cov["support"]["rejection_text_observations"] = textnotes
     ctx.cov["explanation"] = ("Work-queue theorems proved for every interleaving of the lock-step model and tied to user_threadpool.cc by replaying "
                               "%d implementation logs (%d events) in Coq; determinism / copy invariance searched by %d byte comparisons of saved "
